@@ -153,9 +153,12 @@ func vfC10LibBases() []vfBase {
 					for i := 0; i < k; i++ {
 						ops = append(ops, vfOp{Op: "attr", Path: "/x", Name: fmt.Sprintf("k%02d", i), Value: []string{"i64", "s1", "f32"}[i%3]})
 					}
-					ops = append(ops, vfOp{Op: "mkds", Path: "/y", Type: "i32", Dims: []uint64{2, 3}}, vfOp{Op: "write", Path: "/y", Pat: 2},
-						vfOp{Op: "attr", Path: "/y", Name: "unit", Value: "s40"}, vfOp{Op: "mkgroup", Path: "/g"}, vfOp{Op: "attr", Path: "/g", Name: "ga", Value: "i32a"},
-						vfOp{Op: "mkds", Path: "/g/z", Type: "u8", Dims: []uint64{3}}, vfOp{Op: "write", Path: "/g/z", Pat: 4})
+					// /y is created LAST: its reserved header room is the end of the file, which is
+					// where a reopened session's allocator starts
+					ops = append(ops, vfOp{Op: "mkgroup", Path: "/g"}, vfOp{Op: "attr", Path: "/g", Name: "ga", Value: "i32a"},
+						vfOp{Op: "mkds", Path: "/g/z", Type: "u8", Dims: []uint64{3}}, vfOp{Op: "write", Path: "/g/z", Pat: 4},
+						vfOp{Op: "mkds", Path: "/y", Type: "i32", Dims: []uint64{2, 3}}, vfOp{Op: "write", Path: "/y", Pat: 2},
+						vfOp{Op: "attr", Path: "/y", Name: "unit", Value: "s40"})
 					for _, o := range ops {
 						if e, _ := w.Apply(o); e != nil {
 							fw.Close()
